@@ -494,11 +494,13 @@ struct H
   static long cache_len() { return static_cast<long>(ctx()->get_conditional_arg_size_cache().size()); }
 
   // ---- case protocol (caller thread)
+  void note_begin(); // persists a CaseBegin marker, so that a crash can be attributed (runtime TU)
   void begin(int id, int r)
   {
     case_id = id;
     rep = r;
     stmts.clear();
+    note_begin();
   }
   StmtRec& cur() { return stmts.back(); }
   void stmt(int si, int has_str)
